@@ -33,6 +33,7 @@ void refill (int n) { spares -= ({ 0 }); while (sizeof (spares) < n) spares += (
 //   1  a catch that catches nothing                 2  a catch that catches an error() raised inside the handler
 //   4  a catch that catches a throw()               8  an efun callback (map) whose function catches an inner error
 //  16  a nested catch (inner catches, outer catches nothing)
+//  32  an array literal, a local call and a varargs efun (they must see clean interpreter scratch state)
 // Nothing of this may change what the catch that is waiting for the ORIGINAL error yields.
 int hscript;
 void set_hscript (int n) { hscript = n; }
@@ -41,6 +42,7 @@ void hboom () { error ("handler-inner\n"); }
 void hthrow () { throw ("handler-thrown"); }
 int hcb (int x) { mixed e; e = catch (hboom ()); return x; }
 void hnest () { mixed e; e = catch (hboom ()); }
+int hadd (int x, int y) { return x + y; }
 
 string error_handler (mapping m, int caught) {
   string e = m["error"];
@@ -54,5 +56,12 @@ string error_handler (mapping m, int caught) {
   if (hscript & 4) hv = catch (hthrow ());
   if (hscript & 8) hv = map (({ 1, 2 }), (: hcb :));
   if (hscript & 16) hv = catch (hnest ());
+  // 32: the handler runs BEFORE the stack is unwound: the interpreter's scratch state (the count a `...` spread left for the
+  // instruction that failed) must not leak into the handler's own array literals / local calls / varargs efuns
+  if (hscript & 32) {
+    hv = ({ 7, 8 });
+    if (sizeof (hv) != 2 || hadd (1, 2) != 3 || sprintf ("%d", 5) != "5")
+      VL ("say handler lit=" + sizeof (hv) + " scratch-mismatch");
+  }
   return "";
 }
